@@ -80,6 +80,102 @@ Proof.
     split; [eapply keeps_trans; eauto|]. lia.
 Qed.
 
+(* ---- a whole builder script, with arbitrary growth decisions *)
+Lemma str_eqb_eq : forall a b, str_eqb a b = true -> a = b.
+Proof.
+  induction a as [|x a IH]; intros [|y b] H; cbn in H; try discriminate; auto.
+  apply andb_prop in H. destruct H as [H1 H2]. apply N.eqb_eq in H1. subst. f_equal. auto.
+Qed.
+
+Lemma find_put : forall es k v i,
+  match find_key k es i with
+  | Some j => i <= j /\ j - i < length es /\ pl_put es k v = set_nth es (j - i) (k, v)
+  | None => pl_put es k v = es ++ [(k, v)]
+  end.
+Proof.
+  induction es as [|[k' v'] es IH]; intros k v i; cbn [find_key pl_put]; auto.
+  destruct (str_eqb k' k) eqn:E.
+  - apply str_eqb_eq in E. subst. rewrite Nat.sub_diag. cbn. repeat split; auto; lia.
+  - specialize (IH k v (S i)). destruct (find_key k es (S i)) as [j|].
+    + destruct IH as (H1 & H2 & H3). split; [lia|]. split; [cbn; lia|].
+      replace (j - i) with (S (j - S i)) by lia. cbn. rewrite H3. reflexivity.
+    + cbn. rewrite IH. reflexivity.
+Qed.
+
+Lemma firstn_set_nth : forall A (l : list A) n i x, firstn n (set_nth l i x) = set_nth (firstn n l) i x.
+Proof.
+  induction l as [|y l IH]; intros [|n] [|i] x; cbn; auto. f_equal. apply IH.
+Qed.
+
+Lemma firstn_S_set_nth : forall A (l : list A) n x, n < length l -> firstn (S n) (set_nth l n x) = firstn n l ++ [x].
+Proof.
+  induction l as [|y l IH]; intros [|n] x H; cbn in *; try lia; auto. f_equal. apply IH. lia.
+Qed.
+
+(* the builder's ListMap lives above the first n arrays, is well formed and holds es *)
+Definition lmstate_ok (n : nat) (arrs0 : marrays) (st : marrays * lm) (es : list entry) : Prop :=
+  keeps n arrs0 (fst st) /\ n <= lm_arr (snd st) /\ lm_arr (snd st) < length (fst st) /\
+  lm_len (snd st) <= lm_cap (snd st) /\ lm_cap (snd st) <= length (nth (lm_arr (snd st)) (fst st) []) /\
+  lm_rd (fst st) (snd st) = es.
+
+Lemma mbstep_ok : forall n arrs0 st es k v c,
+  lmstate_ok n arrs0 st es -> lmstate_ok n arrs0 (lm_append (fst st) (snd st) k v c) (pl_put es k v).
+Proof.
+  intros n arrs0 [arrs l] es k v c (K & Hn & Hlt & Hlc & Hcl & Hrd). cbn [fst snd] in *.
+  assert (Hnl : n <= length arrs) by lia.
+  assert (Hlen : length es = lm_len l).
+  { rewrite <- Hrd. unfold lm_rd. rewrite firstn_length. lia. }
+  unfold lm_append. rewrite Hrd. pose proof (find_put es k v 0) as Hf.
+  destruct (find_key k es 0) as [j|].
+  - destruct Hf as (_ & Hj & Hp). rewrite Nat.sub_0_r in Hj, Hp.
+    unfold lmstate_ok. cbn [fst snd]. split; [|split; [|split; [|split; [|split]]]]; auto.
+    + eapply keeps_trans; [exact K|]. apply keeps_mwrite; auto.
+    + rewrite mwrite_length. auto.
+    + unfold mwrite. rewrite nth_set_nth_eq by auto. rewrite set_nth_length. auto.
+    + unfold lm_rd, mwrite. rewrite nth_set_nth_eq by auto. rewrite firstn_set_nth.
+      unfold lm_rd in Hrd. rewrite Hrd. auto.
+  - destruct (lm_len l <? lm_cap l) eqn:E.
+    + apply Nat.ltb_lt in E. unfold lmstate_ok. cbn [fst snd lm_arr lm_len lm_cap].
+      split; [|split; [|split; [|split; [|split]]]]; auto.
+      * eapply keeps_trans; [exact K|]. apply keeps_mwrite; auto.
+      * rewrite mwrite_length. auto.
+      * unfold mwrite. rewrite nth_set_nth_eq by auto. rewrite set_nth_length. auto.
+      * unfold lm_rd, mwrite. cbn [lm_arr lm_len]. rewrite nth_set_nth_eq by auto.
+        rewrite firstn_S_set_nth by lia. unfold lm_rd in Hrd. rewrite Hrd. auto.
+    + apply Nat.ltb_ge in E. unfold lmstate_ok. cbn [fst snd lm_arr lm_len lm_cap].
+      split; [|split; [|split; [|split; [|split]]]].
+      * eapply keeps_trans; [exact K|]. apply keeps_snoc; auto.
+      * lia.
+      * rewrite app_length. cbn. lia.
+      * lia.
+      * rewrite app_nth2 by lia. rewrite Nat.sub_diag. cbn [nth]. rewrite app_length. cbn [length].
+        rewrite repeat_length, Hlen. lia.
+      * unfold lm_rd at 1. cbn [lm_arr lm_len]. rewrite app_nth2 by lia. rewrite Nat.sub_diag. cbn [nth].
+        rewrite firstn_app, Hlen. replace (S (lm_len l) - lm_len l) with 1 by lia.
+        rewrite firstn_all2 by lia. cbn. rewrite Hf. reflexivity.
+Qed.
+
+Lemma pl_build_fold : forall script acc,
+  fold_left (fun a b => match b with MBAppend k v _ => pl_put a k v end) script acc =
+  fold_left (fun acc e => pl_put acc (fst e) (snd e)) (script_entries script) acc.
+Proof. induction script as [|[k v c] script IH]; intros acc; cbn; auto. Qed.
+
+Lemma lm_script_ok : forall arrs size script,
+  let r := lm_script arrs size script in
+  keeps (length arrs) arrs (fst r) /\ length arrs <= lm_arr (snd r) /\ lm_arr (snd r) < length (fst r) /\
+  lm_rd (fst r) (snd r) = pl_build (script_entries script).
+Proof.
+  intros arrs size script. unfold lm_script, pl_build. rewrite <- pl_build_fold.
+  assert (H0 : lmstate_ok (length arrs) arrs (lm_new arrs size) []).
+  { unfold lmstate_ok, lm_new. cbn [fst snd lm_arr lm_len lm_cap].
+    split; [apply keeps_snoc; lia|]. split; [lia|]. split; [rewrite app_length; cbn; lia|]. split; [lia|].
+    split; [rewrite app_nth2 by lia; rewrite Nat.sub_diag; cbn; rewrite repeat_length; lia|reflexivity]. }
+  revert H0. generalize (lm_new arrs size). generalize (@nil entry).
+  induction script as [|[k v c] script IH]; intros es st H; cbn [fold_left].
+  - destruct H as (K & Hn & Hlt & _ & _ & Hrd). auto.
+  - apply IH. cbn [mbstep_run]. apply mbstep_ok. auto.
+Qed.
+
 (* ---- every operation of value/map.go *)
 Definition mgood (h h' : mheap) : Prop :=
   mwf h' /\ keeps (length (mh_arrs h)) (mh_arrs h) (mh_arrs h') /\
@@ -144,6 +240,8 @@ Proof.
     apply add_map_good; auto.
   - destruct (get_map h a) as [m|] eqn:Hg; [|apply mgood_refl; auto].
     apply add_map_good; auto; [apply keeps_refl|]. cbn. auto.
+  - pose proof (lm_script_ok (mh_arrs h) size script) as (K & Hn & B & _).
+    destruct (lm_script (mh_arrs h) size script) as [arrs' l]. apply add_map_good; auto.
 Qed.
 
 Lemma mwf_empty : mwf empty_mheap.
@@ -225,4 +323,31 @@ Proof.
   assert (K : keeps (length (mh_arrs h)) (mh_arrs h) arrs').
   { eapply keeps_trans; [split; eauto|exact K1]. }
   destruct (store_reads_kept _ _ _ m K (Hw _ _ Hg)) as (G & I & _). auto.
+Qed.
+
+(* ---- the builder theorem for maps: any script of ListMap.Append on a private ListMap *)
+Lemma listmap_builder_script_lemma : forall h size script, mwf h ->
+  let r := lm_script (mh_arrs h) size script in
+  let h' := mstep h (MScript size script) in
+  (* every existing map reads the same from the builder's heap at the end of the script ... *)
+  (forall i m, get_map h i = Some m ->
+     get_map h' i = Some m /\ (forall k, mget (fst r) m k = mget (mh_arrs h) m k) /\
+     miter (fst r) m = miter (mh_arrs h) m /\ msize (fst r) m = msize (mh_arrs h) m) /\
+  (* ... the arrays that existed are untouched and the builder's ListMap lives in a new one ... *)
+  keeps (length (mh_arrs h)) (mh_arrs h) (fst r) /\ length (mh_arrs h) <= lm_arr (snd r) /\
+  (* ... it holds exactly what the script put (last value wins, position of the first put) ... *)
+  lm_rd (fst r) (snd r) = pl_build (script_entries script) /\
+  (* ... and handing it to NewMap is a well-formed heap with one more handle showing these entries *)
+  mwf h' /\ get_map h' (nmaps h) = Some (SList (snd r)) /\
+  mcontent (mh_arrs h') (SList (snd r)) = sort_entries (pl_build (script_entries script)).
+Proof.
+  intros h size script Hw r h'.
+  pose proof (lm_script_ok (mh_arrs h) size script) as (K & Hn & B & Hrd). fold r in K, Hn, B, Hrd.
+  pose proof (mstep_good h (MScript size script) Hw) as (Hw' & K' & G). fold h' in Hw', K', G.
+  assert (E : h' = add_map h (fst r) (SList (snd r))).
+  { unfold h'. cbn [mstep]. fold r. destruct r. reflexivity. }
+  split; [|split; [|split; [|split; [|split; [|split]]]]]; auto.
+  - intros i m Hg. split; [apply G; auto|]. apply (store_reads_kept _ _ _ m K (Hw _ _ Hg)).
+  - rewrite E. unfold get_map, add_map, nmaps. cbn. rewrite nth_error_app2 by lia. rewrite Nat.sub_diag. reflexivity.
+  - rewrite E. unfold mcontent, add_map. cbn. rewrite Hrd. reflexivity.
 Qed.
